@@ -44,8 +44,15 @@ func main() {
 	tier := flag.String("tier", "quick", "quick|thorough|search")
 	out := flag.String("out", "", "output directory")
 	replay := flag.String("replay", "", "replay file (json with inputs)")
-	workers := flag.Int("workers", 8, "parallel cases")
+	workers := flag.Int("workers", 16, "parallel cases")
+	one := flag.Bool("one", false, "child mode: one input on stdin, its observation on stdout")
 	flag.Parse()
+	if *one {
+		log.OutputToBuf()
+		log.SetDebugVisible(0)
+		childMain()
+		return
+	}
 	if *out == "" {
 		fmt.Fprintln(os.Stderr, "need -out")
 		os.Exit(2)
@@ -112,6 +119,10 @@ func main() {
 	for _, c := range results {
 		if c.Discard {
 			discarded++
+			if os.Getenv("VERIF_DEBUG") != "" {
+				b, _ := json.Marshal(c.Obs)
+				fmt.Fprintln(os.Stderr, "discarded:", c.Class, string(b))
+			}
 			continue
 		}
 		cases = append(cases, c)
